@@ -21,7 +21,9 @@ RULE = ("scenarios = <=5 launches (event trigger / service call / @task_unique-d
         "task.sleep(k*10ms) / raise / finish over <=3 names and 2 global contexts (two script files); families: "
         "A = sampled from the full product of 3 tasks x 2 steps x start offsets in one context, B = random 2-5 tasks "
         "over both contexts with all launch kinds, C = directed shapes (same-instant double dispatch of a decorated "
-        "function, an occurrence of one trigger of a decorated function while a run started by another of its triggers "
+        "function, task.unique / task.name2id reached through a helper imported from modules/m.py by both script files - the "
+        "claim belongs to the module's context, and right after every completed claim name2id(name) must report the "
+        "caller -, an occurrence of one trigger of a decorated function while a run started by another of its triggers "
         "is alive - every decorated function carries two @event_trigger and one @state_trigger, the launch says which "
         "fires -, decorated vs running owner, foreign callers, nested context names with dotted task names - since "
         "/repo ef1f444 expected to be as separate as any other two contexts). "
@@ -41,7 +43,19 @@ GRID = 0.010
 NAMES = ["n0", "n1", "n2"]
 FLAT = ["file.a", "file.b"]
 NESTED = ["scripts.a", "scripts.a.b"]
-CTX_FILE = {"file.a": "a.py", "file.b": "b.py", "scripts.a": "scripts/a.py", "scripts.a.b": "scripts/a/b.py"}
+MOD = "modules.m"                      # a helper module imported by both script files: its functions run in ITS context
+WITHMOD = FLAT + [MOD]
+CTX_FILE = {"file.a": "a.py", "file.b": "b.py", "scripts.a": "scripts/a.py", "scripts.a.b": "scripts/a/b.py",
+            MOD: "modules/m.py"}
+MOD_SRC = """
+def excl(name, kill_me=False):
+    task.unique(name, kill_me=kill_me)
+    try:
+        owner = task.name2id(name)
+    except NameError:
+        owner = None
+    return owner is task.current_task()
+"""
 _SIDE = {}
 
 
@@ -53,15 +67,28 @@ def ident(s):
 def gen_files(p):
     files = {}
     for ci, ctx in enumerate(p["ctxs"]):
+        if ctx == MOD:
+            files[CTX_FILE[ctx]] = MOD_SRC
+            continue
         plans = {i: pl for i, pl in enumerate(p["plans"]) if p["launch"][i][2] == ci}
         c = ident(ctx)
-        src = [f"PLANS = {plans!r}", "", "def runner(i):",
+        src = (["import m", ""] if MOD in p["ctxs"] else []) + [
+               "def owns(name):",
+               "    try:",
+               "        return task.name2id(name) is task.current_task()",
+               "    except NameError:",
+               "        return False",
+               "",
+               f"PLANS = {plans!r}", "", "def runner(i):",
                "    rec('start', i, task.current_task())",
                "    j = 0",
                "    for st in PLANS[i]:",
                "        rec('b', i, j)",
                "        if st[0] == 'u':",
                "            task.unique(st[1], kill_me=st[2])",
+               "            rec('chk', i, j, owns(st[1]))",
+               "        elif st[0] == 'm':",
+               "            rec('chk', i, j, m.excl(st[1], kill_me=st[2]))",
                "        elif st[0] == 's':",
                "            task.sleep(st[1] * %r)" % GRID,
                "        else:",
@@ -339,6 +366,8 @@ def _canon(p, trace, records):
             log.append(["start", r[2]])
         elif tag in ("b", "a"):
             log.append([tag, r[2], r[3]])
+        elif tag == "chk":
+            log.append(["chk", r[2], r[3], bool(r[4])])
         elif tag == "end":
             log.append(["end", r[2]])
         elif tag == "snap":
@@ -393,8 +422,10 @@ def oracle(p, log):
         elif tag == "b":
             i, j = e[1], e[2]
             st = plans[i][j]
-            if st[0] == "u":
-                key = (ctx_of[i], st[1])
+            if st[0] in ("u", "m"):
+                # task.unique is specific to the CURRENT global context: that of the function executing the call -
+                # the script's own context for 'u', the module's for a call made inside the imported helper ('m')
+                key = (ctx_of[i] if st[0] == "u" else MOD, st[1])
                 pending[i] = (key, bool(st[2]), owner(key))
             elif st[0] == "r":
                 ended.add(i)
@@ -402,7 +433,7 @@ def oracle(p, log):
         elif tag == "a":
             i, j = e[1], e[2]
             st = plans[i][j]
-            if st[0] == "u":
+            if st[0] in ("u", "m"):
                 key, km, o = pending.pop(i)
                 if km and o is not None and o != i and state.get(o) == "alive":
                     return f"killme-caller-continued-while-name-owned task={i} owner={o}"
@@ -411,6 +442,10 @@ def oracle(p, log):
                         state[o] = "limbo"      # the statement does not say what a foreign caller does to the owner
                 else:
                     claim(key, i)
+        elif tag == "chk":
+            # right after a completed claim task.name2id(name), asked in the same context, reports the caller
+            if e[1] not in foreign and not e[3]:
+                return f"name2id-not-the-caller-after-claim task={e[1]} step={e[2]}"
         elif tag == "end":
             ended.add(e[1])
             state[e[1]] = "dead"
@@ -471,7 +506,7 @@ def oracle(p, log):
 def mk(p, tags):
     p = dict(p)
     c = Case(p, None, tags=tags)
-    c.nontrivial = any(st[0] == "u" for pl in p["plans"] for st in pl) or any(l[1] == "deco" for l in p["launch"])
+    c.nontrivial = any(st[0] in ("u", "m") for pl in p["plans"] for st in pl) or any(l[1] == "deco" for l in p["launch"])
     return c
 
 
@@ -494,11 +529,13 @@ def family_a(rng, n):
     return out
 
 
-def rand_plan(rng, names):
+def rand_plan(rng, names, mod=False):
     pl = []
     for _ in range(rng.randrange(1, 5)):
         r = rng.random()
-        if r < 0.55:
+        if mod and r < 0.25:
+            pl.append(["m", rng.choice(names), rng.random() < 0.3])
+        elif r < 0.55:
             pl.append(["u", rng.choice(names), rng.random() < 0.3])
         else:
             pl.append(["s", rng.randrange(1, 4)])
@@ -515,13 +552,14 @@ def family_b(rng, n):
     for _ in range(n):
         nt = rng.randrange(2, 6)
         names = NAMES[: rng.randrange(1, 4)]
+        mod = rng.random() < 0.3
         plans, launch = [], []
         for t in range(nt):
-            plans.append(rand_plan(rng, names))
+            plans.append(rand_plan(rng, names, mod))
             kind = rng.choices(["trig", "svc", "deco", "foreign"], [50, 15, 20, 15])[0]
             deco = [rng.choice(names), rng.random() < 0.5, rng.randrange(3)] if kind == "deco" else None
             launch.append([rng.randrange(4), kind, rng.randrange(2) if rng.random() < 0.4 else 0, t, deco])
-        out += both({"ctxs": FLAT, "plans": plans, "launch": launch}, ("B",))
+        out += both({"ctxs": WITHMOD if mod else FLAT, "plans": plans, "launch": launch}, ("B", "mod") if mod else ("B",))
     return out
 
 
@@ -555,6 +593,20 @@ def family_c(rng, n):
                      "launch": [[0, "trig", 0, 0, None], [0, "foreign", 0, 1, None]]}, ("C", "foreign"))
         out += both({"ctxs": FLAT, "plans": [[["u", "n0", km], ["s", 2]], [["u", "n0", False], ["s", 2]]],
                      "launch": [[0, "foreign", 0, 0, None], [1, "trig", 0, 1, None]]}, ("C", "foreign"))
+    # task.unique reached through a helper imported from modules/m.py: the claim belongs to the module's context -
+    # two script files meet there; the same name used directly in a script is a different key
+    for km in (False, True):
+        out += both({"ctxs": WITHMOD, "plans": [[["m", "n0", False], ["s", 3]], [["s", 1], ["m", "n0", km], ["s", 2]],
+                                                [["s", 2], ["m", "n0", False], ["s", 2]]],
+                     "launch": [[0, "trig", 0, 0, None], [0, "trig", 1, 1, None], [0, "svc", 0, 2, None]]},
+                    ("C", "module"))
+        out += both({"ctxs": WITHMOD, "plans": [[["u", "n0", False], ["m", "n0", False], ["s", 3]],
+                                                [["s", 1], ["u", "n0", km], ["s", 2]], [["s", 1], ["m", "n0", km], ["s", 2]]],
+                     "launch": [[0, "trig", 0, 0, None], [0, "trig", 0, 1, None], [0, "trig", 1, 2, None]]},
+                    ("C", "module"))
+        out += both({"ctxs": WITHMOD, "plans": [[["m", "n1", False], ["s", 2]], [["m", "n1", km], ["s", 2]]],
+                     "launch": [[0, "deco", 0, 0, ["n1", km, 0]], [1, "deco", 1, 1, ["n0", False, 1]]]},
+                    ("C", "module"))
     # same name in two contexts never interacts
     out += both({"ctxs": FLAT, "plans": [[["u", "n0", False], ["s", 3]], [["u", "n0", False], ["s", 3]],
                                          [["s", 1], ["u", "n0", True], ["s", 1]]],
@@ -627,7 +679,8 @@ def verdict(c):
 def classify(c, reason):
     p = c.payload
     kind = reason.split(" ")[0]
-    pairs = {(p["ctxs"][l[2]], st[1]) for l, pl in zip(p["launch"], p["plans"]) for st in pl if st[0] == "u"}
+    pairs = {(p["ctxs"][l[2]] if st[0] == "u" else MOD, st[1]) for l, pl in zip(p["launch"], p["plans"])
+             for st in pl if st[0] in ("u", "m")}
     pairs |= {(p["ctxs"][l[2]], l[4][0]) for l in p["launch"] if l[1] == "deco"}
     if len({f"{c}.{n}" for c, n in pairs}) < len(pairs) and not kind.startswith("deco-"):
         # two different (context, name) pairs of this scenario are one key string: whatever the oracle saw first
@@ -697,7 +750,7 @@ def extra_coverage(cases):
             kinds[l[1]] = kinds.get(l[1], 0) + 1
         for pl in c.payload["plans"]:
             for st in pl:
-                k = st[0] + (":km" if st[0] == "u" and st[2] else "")
+                k = st[0] + (":km" if st[0] in ("u", "m") and st[2] else "")
                 steps[k] = steps.get(k, 0) + 1
         for t in (c.impl or "").split():
             if ":" in t and t[0] in "urxdc" and len(t) < 8:
